@@ -82,7 +82,7 @@ theorem unopened_cons_lt (db : Db) {seen : List (Str × Option Str)} {k : Str ×
 /-- the loop completes when every recursive call it can make completes -/
 theorem depsLoop_some (db : Db) (req : Required)
     (recur : Prod → Nat → St → Option (List Entry × St)) (fresh : Prod → Option (List Str))
-    (top : Prod) (depth : Nat) (k : Nat)
+    (top : Prod) (depth : Nat) (k : Nat) (hm : ∀ p, db.tableMissing p = false)
     (hrec : ∀ p dp st, unopened db st.seen < k → ∃ out st', recur p dp st = some (out, st') ∧
         CallPost db req p st out st') :
     ∀ ds acc st, (∀ d ∈ ds, d.unsetup = false) → unopened db st.seen ≤ k →
@@ -92,7 +92,7 @@ theorem depsLoop_some (db : Db) (req : Required)
   | nil => intro acc st _ _; exact ⟨_, rfl⟩
   | cons d ds ih =>
     intro acc st hu hk
-    rw [depsLoop_cons_setup _ _ _ _ _ _ _ _ _ _ _ (hu d (by simp))]
+    rw [depsLoop_cons_setup _ _ _ _ _ _ _ _ _ _ _ (hu d (by simp)) hm]
     have hu' : ∀ d ∈ ds, d.unsetup = false := fun x hx => hu x (by simp [hx])
     cases hr : resolve db req d with
     | none => exact ih _ _ hu' hk
@@ -127,6 +127,7 @@ theorem depsOf_some (db : Db) (hns : NoUnsetup db) (req : Required) :
     unfold depsOf
     have := depsLoop_some db req (fun p d st' => depsOf db k req p true d st')
       (fun p => (depsOf db k [] p true 0 St.empty).map fun r => r.1.map (·.prod.name)) top depth k
+      (tableMissing_false hns)
       (by
         intro p dp st1 hlt
         obtain ⟨out, st', hq⟩ := ih p dp st1 hlt
